@@ -124,7 +124,7 @@ Proof.
     destruct t; [destruct (s_tq s)|destruct (s_sq s)]; try exact W; destruct k; exact W.
   - unfold terminate. destruct (alookup N.eqb c (st_cid st)) as [id|]; [|exact W].
     destruct (mem_n c (st_term st) || _); [exact W|].
-    cbn [snd st_active]. apply (nodup_aremove bytes_eqb bytes_eqb_eq); exact W.
+    cbn [snd st_active]. destruct (option_eqb N.eqb (alookup bytes_eqb id (st_active st)) (Some c)); [apply (nodup_aremove bytes_eqb bytes_eqb_eq)|]; exact W.
   - exact W.
 Qed.
 
